@@ -30,7 +30,7 @@ ASSUMPTIONS = [
     "recursion error) by library blocks, 'ping' handled by probes",
 ]
 REQUIRED = {'events_entered': 2000, 'reentry_attempts_refused': 100, 'followups_ok': 2000,
-            'harmless_stimuli': 500, 'legit_nested_fsm': 30, 'fsm_exit_action_reentry': 30, 'filter_rejections': 100,
+            'harmless_stimuli': 500, 'legit_nested_fsm': 30, 'fsm_exit_action_reentry': 30, 'chained_out_of_timed_state': 20, 'filter_rejections': 100,
             'eventcond_none': 50, 'unknown_or_param_errors': 100, 'handler_failures': 20,
             'init_by_event': 20}
 SHARDS = {'quick': 8, 'thorough': 16}
@@ -186,7 +186,7 @@ def gen(ctx):
                     b['opts']['dest'] = rng.choice(targets)
                     continue
             if b['kind'] == 'fsm':
-                b['opts']['chain'] = rng.choice(['none', 'none', 'enter', 'timer'])
+                b['opts']['chain'] = rng.choice(['none', 'none', 'enter', 'timer', 'timed_enter'])
                 # an exit action that sends an event to its own FSM: never a documented
                 # exception, not even in the intermediate state of a chained transition
                 b['opts']['exit_send'] = rng.choice(['none', 'none', 'none', 'b', 'a', 'c'])
@@ -269,10 +269,22 @@ def run_case(case, ctx):
                     self.event('hop')       # chained transition (documented exception)
                 finally:
                     self.x_in_enter -= 1
-            elif self.x_chain == 'timer':
+            elif self.x_chain in ('timer', 'timed_enter'):
                 self.x_in_enter = getattr(self, 'x_in_enter', 0) + 1
                 try:
                     self.event(edzed.Goto('c'))     # -> zero-length timer -> 'hop'
+                finally:
+                    self.x_in_enter -= 1
+
+        def enter_c(self):
+            if self.x_chain == 'timed_enter':
+                # the entry action of a TIMED state (zero duration) requests the single chained
+                # transition itself: documented exception; the state is only an intermediate
+                # one, so its zero-length timer must not add a second event
+                ctx.count('chained_out_of_timed_state')
+                self.x_in_enter = getattr(self, 'x_in_enter', 0) + 1
+                try:
+                    self.event(edzed.Goto('a'))
                 finally:
                     self.x_in_enter -= 1
 
